@@ -489,10 +489,16 @@ typedargslist:
 |	tfpdeftests1 ',' '*' optional_tfpdef tfpdeftests
 	{
 		$$ = &ast.Arguments{Pos: $<pos>$, Args: $1, Defaults: $<exprs>1, Vararg: $4, Kwonlyargs: $5, KwDefaults: $<exprs>5}
+		if $$.Vararg == nil && len($$.Kwonlyargs) == 0 {
+			yylex.(*yyLex).SyntaxError("named arguments must follow bare *")
+		}
 	}
 |	tfpdeftests1 ',' '*' optional_tfpdef tfpdeftests ',' STARSTAR tfpdef
 	{
 		$$ = &ast.Arguments{Pos: $<pos>$, Args: $1, Defaults: $<exprs>1, Vararg: $4, Kwonlyargs: $5, KwDefaults: $<exprs>5, Kwarg: $8}
+		if $$.Vararg == nil && len($$.Kwonlyargs) == 0 {
+			yylex.(*yyLex).SyntaxError("named arguments must follow bare *")
+		}
 	}
 |	tfpdeftests1 ',' STARSTAR tfpdef
 	{
@@ -501,10 +507,16 @@ typedargslist:
 |	'*' optional_tfpdef tfpdeftests
 	{
 		$$ = &ast.Arguments{Pos: $<pos>$, Vararg: $2, Kwonlyargs: $3, KwDefaults: $<exprs>3}
+		if $$.Vararg == nil && len($$.Kwonlyargs) == 0 {
+			yylex.(*yyLex).SyntaxError("named arguments must follow bare *")
+		}
 	}
 |	'*' optional_tfpdef tfpdeftests ',' STARSTAR tfpdef
 	{
 		$$ = &ast.Arguments{Pos: $<pos>$, Vararg: $2, Kwonlyargs: $3, KwDefaults: $<exprs>3, Kwarg: $6}
+		if $$.Vararg == nil && len($$.Kwonlyargs) == 0 {
+			yylex.(*yyLex).SyntaxError("named arguments must follow bare *")
+		}
 	}
 |	STARSTAR tfpdef
 	{
@@ -584,10 +596,16 @@ varargslist:
 |	vfpdeftests1 ',' '*' optional_vfpdef vfpdeftests
 	{
 		$$ = &ast.Arguments{Pos: $<pos>$, Args: $1, Defaults: $<exprs>1, Vararg: $4, Kwonlyargs: $5, KwDefaults: $<exprs>5}
+		if $$.Vararg == nil && len($$.Kwonlyargs) == 0 {
+			yylex.(*yyLex).SyntaxError("named arguments must follow bare *")
+		}
 	}
 |	vfpdeftests1 ',' '*' optional_vfpdef vfpdeftests ',' STARSTAR vfpdef
 	{
 		$$ = &ast.Arguments{Pos: $<pos>$, Args: $1, Defaults: $<exprs>1, Vararg: $4, Kwonlyargs: $5, KwDefaults: $<exprs>5, Kwarg: $8}
+		if $$.Vararg == nil && len($$.Kwonlyargs) == 0 {
+			yylex.(*yyLex).SyntaxError("named arguments must follow bare *")
+		}
 	}
 |	vfpdeftests1 ',' STARSTAR vfpdef
 	{
@@ -596,10 +614,16 @@ varargslist:
 |	'*' optional_vfpdef vfpdeftests
 	{
 		$$ = &ast.Arguments{Pos: $<pos>$, Vararg: $2, Kwonlyargs: $3, KwDefaults: $<exprs>3}
+		if $$.Vararg == nil && len($$.Kwonlyargs) == 0 {
+			yylex.(*yyLex).SyntaxError("named arguments must follow bare *")
+		}
 	}
 |	'*' optional_vfpdef vfpdeftests ',' STARSTAR vfpdef
 	{
 		$$ = &ast.Arguments{Pos: $<pos>$, Vararg: $2, Kwonlyargs: $3, KwDefaults: $<exprs>3, Kwarg: $6}
+		if $$.Vararg == nil && len($$.Kwonlyargs) == 0 {
+			yylex.(*yyLex).SyntaxError("named arguments must follow bare *")
+		}
 	}
 |	STARSTAR vfpdef
 	{
